@@ -557,6 +557,59 @@ func (c *Ctx) jsonDelims(info *types.Info) {
 	if !g {
 		c.violate("codec-agreement/json", "helper.ChanToJSON/JSONToChanWithLogger", "delimiters", enc.Decl.Pos(), "the JSON array delimiters written ('[' ',' ']') and expected ('[' ']') no longer agree")
 	}
+	// every element is decoded into a fresh value: encoding/json does not reset its target, so a
+	// reused variable keeps the fields an element omits and merges maps of earlier elements
+	freshOK, decodes := true, 0
+	dinfo := dec.Pkg.TypesInfo
+	var loops []ast.Node
+	ast.Inspect(dec.Decl.Body, func(n ast.Node) bool {
+		switch x := n.(type) {
+		case *ast.ForStmt, *ast.RangeStmt:
+			loops = append(loops, x)
+		}
+		return true
+	})
+	ast.Inspect(dec.Decl.Body, func(n ast.Node) bool {
+		call, ok := n.(*ast.CallExpr)
+		if !ok || len(call.Args) != 1 {
+			return true
+		}
+		sel, ok := call.Fun.(*ast.SelectorExpr)
+		if !ok || sel.Sel.Name != "Decode" {
+			return true
+		}
+		u, ok := call.Args[0].(*ast.UnaryExpr)
+		if !ok || u.Op != token.AND {
+			return true
+		}
+		id, ok := u.X.(*ast.Ident)
+		if !ok {
+			return true
+		}
+		obj := dinfo.ObjectOf(id)
+		// only decodes inside a loop matter (one per element)
+		for _, l := range loops {
+			if call.Pos() > l.Pos() && call.End() < l.End() {
+				decodes++
+				var body *ast.BlockStmt
+				switch x := l.(type) {
+				case *ast.ForStmt:
+					body = x.Body
+				case *ast.RangeStmt:
+					body = x.Body
+				}
+				if obj == nil || obj.Pos() < body.Pos() || obj.Pos() > body.End() {
+					freshOK = false
+				}
+			}
+		}
+		return true
+	})
+	run.Count("json_element_decodes", decodes)
+	run.Oblige(freshOK && decodes > 0)
+	if !freshOK || decodes == 0 {
+		c.violate("codec-agreement/json", "helper.JSONToChanWithLogger", "decode target", dec.Decl.Pos(), "every array element must be decoded into a value declared inside the loop: a reused target keeps the fields an element omits and shares maps and pointers between elements")
+	}
 	// the separator is written before every element but the first
 	sepOK := false
 	ast.Inspect(enc.Decl.Body, func(n ast.Node) bool {
